@@ -1980,6 +1980,14 @@ impl HttpsProxy {
             })
     }
 
+    /// Token (slab key of the `ListenSession`) of the listener at this address.
+    pub fn listener_token(&self, address: &StdSocketAddr) -> Option<Token> {
+        self.listeners
+            .iter()
+            .find(|(_, listener)| listener.borrow().address == *address)
+            .map(|(token, _)| *token)
+    }
+
     pub fn give_back_listeners(&mut self) -> Vec<(StdSocketAddr, MioTcpListener)> {
         self.listeners
             .values()
